@@ -81,7 +81,7 @@ def _stmt_end(toks, i):
     return n
 
 
-def drop_attrs(toks, features, counts):
+def drop_attrs(toks, features, counts, notes=None):
     out = []
     i, n = 0, len(toks)
     while i < n:
@@ -99,8 +99,10 @@ def drop_attrs(toks, features, counts):
                     while nxt < n and is_p(toks[nxt], "#"):
                         nxt = match_close(toks, nxt + 1) + 1
                     end = _stmt_end(toks, nxt)
-                    if end < n and toks[end].trivia == "" :
-                        pass
+                    if notes is not None:
+                        # state exactly what is dropped: the condition and the construct it removes
+                        txt = " ".join(x.text for x in toks[nxt:end])
+                        notes.append("cfg-dropped [%s]: %s" % ("".join(x.text for x in inner[1:]), txt if len(txt) <= 90 else txt[:60] + " ... " + txt[-25:]))
                     i = end
                     continue
             else:
@@ -845,10 +847,10 @@ def n12_const(toks, counts):
 def apply_all(toks, repo, opts, notes):
     counts = {}
     toks = n12_const(list(toks), counts)
-    toks = drop_attrs(list(toks), repo.features | set(opts.get("features", [])), counts)
+    toks = drop_attrs(list(toks), repo.features | set(opts.get("features", [])), counts, notes)
     toks = expand_inner(toks, repo, set(opts.get("expand", [])), opts.get("macro_files", []), counts, notes)
     # attributes inside macro bodies
-    toks = drop_attrs(toks, repo.features | set(opts.get("features", [])), counts)
+    toks = drop_attrs(toks, repo.features | set(opts.get("features", [])), counts, notes)
     if opts.get("drop"):
         toks = drop_tokens(toks, set(opts["drop"]), counts)
     toks = n6_debug_assert(toks, counts)
